@@ -846,6 +846,80 @@ Definition bc_safe (p : list stmt) : bool :=
 
 
 (* ---------------------------------------------------------------------------------------------- *)
+(* fixes.move_before_loop (fixes.py:695-760) on loops whose body consists of simple statements only (the
+   dependency analysis tracing.code_dependencies_outputs is modelled for straight-line code; a loop with a
+   compound statement in its body is outside the correspondence domain and left alone).
+   A top-level assignment `x = <constant or variable>` of the loop body is moved in front of the loop when
+     - no return/raise/break/continue precedes it in the body,
+     - x neither occurs in the statements before it nor in the loop header,
+     - a variable on its right-hand side is not assigned elsewhere in the body.
+   The rule restarts after every move. *)
+Definition rexpr_reads (e : rexpr) : list var :=
+  match e with RVal _ => [] | RVar y => [y] | RTest t => test_reads t end.
+Definition stmt_reads (s : stmt) : list var :=
+  match s with
+  | SEv _ rd => rd
+  | SAssign _ e => rexpr_reads e
+  | SReturn e => rexpr_reads e
+  | _ => []
+  end.
+Definition stmt_writes (s : stmt) : list var := match s with SAssign x _ => [x] | _ => [] end.
+Definition is_jump (s : stmt) : bool :=
+  match s with SReturn _ | SRaise | SBreak | SContinue => true | _ => false end.
+Definition head_reads (h : head) : list var :=
+  match h with
+  | HWhile t => test_reads t
+  | HFor (IKnown _) => []
+  | HFor (IUnknown _ rd) => rd
+  end.
+Definition mem (x : var) (l : list var) : bool := existsb (Nat.eqb x) l.
+Definition occurs (x : var) (l : list stmt) : bool :=
+  existsb (fun s => mem x (stmt_reads s) || mem x (stmt_writes s)) l.
+Definition writes_in (x : var) (l : list stmt) : bool := existsb (fun s => mem x (stmt_writes s)) l.
+
+Definition hoistable (h : head) (before : list stmt) (s : stmt) (after : list stmt) : bool :=
+  match s with
+  | SAssign x k =>
+      match k with RTest _ => false | _ => true end
+      && negb (existsb is_jump before)
+      && negb (occurs x before)
+      && negb (mem x (head_reads h))
+      && match k with RVar y => negb (writes_in y (before ++ after)) | _ => true end
+  | _ => false
+  end.
+(* first hoistable statement: Some (statement, body without it) *)
+Fixpoint hoist_one (h : head) (before : list stmt) (l : list stmt) : option (stmt * list stmt) :=
+  match l with
+  | [] => None
+  | s :: tl => if hoistable h before s tl then Some (s, before ++ tl)
+               else hoist_one h (before ++ [s]) tl
+  end.
+Fixpoint hoist_all (n : nat) (h : head) (body : list stmt) : list stmt * list stmt :=
+  match n with
+  | O => ([], body)
+  | S n' =>
+      match hoist_one h [] body with
+      | Some (s, body') => let (pre, b) := hoist_all n' h body' in (s :: pre, b)
+      | None => ([], body)
+      end
+  end.
+Fixpoint mbl (n : nat) (p : list stmt) : list stmt :=
+  match n with
+  | O => p
+  | S n' =>
+      flat_map (fun s =>
+        match s with
+        | SIf t b e => [SIf t (mbl n' b) (mbl n' e)]
+        | SLoop h b e =>
+            if forallb is_simple_stmt b then
+              let (pre, b') := hoist_all (length b) h b in pre ++ [SLoop h (fixb b') (mbl n' e)]
+            else [s]
+        | _ => [s]
+        end) p
+  end.
+Definition move_before_loop_model (p : list stmt) : list stmt := mbl (fuel_of p) p.
+
+(* ---------------------------------------------------------------------------------------------- *)
 (* correspondence plumbing: (rule number, input program, expected output of the real rule) *)
 Definition apply_rule (k : nat) (p : list stmt) : list stmt :=
   match k with
@@ -858,6 +932,7 @@ Definition apply_rule (k : nat) (p : list stmt) : list stmt :=
   | 6 => early_return_model p
   | 7 => early_continue_model p
   | 8 => breakout_common_code_model p
+  | 9 => move_before_loop_model p
   | _ => p
   end.
 (* expected = None: the real rule left the program unchanged *)
